@@ -58,6 +58,7 @@ type FuncContract struct {
 	Pure       bool
 	Inline     bool
 	NoPanic    bool
+	CallbackLoop bool // extern: calls its closure argument any number of times
 	Functional bool // extern: result is a function of scalar args
 	Allocates  bool
 	File       string
@@ -590,6 +591,8 @@ func (cs *ContractSet) parseFile(file, pkgPath string) error {
 					cur.Functional = true
 				case "inline":
 					cur.Inline = true
+				case "callback-loop":
+					cur.CallbackLoop = true
 				case "allocates":
 					cur.Allocates = true
 				default:
